@@ -371,6 +371,8 @@ func main() {
 		{"ss new less", "ss add 1", "ss add 2", "ss add 3", "ss w 1 1", "ss w 3 1", "ss w 2 1", "ss apply 4,5 1,4"},
 		{"ev new", "ev event 3", "ev event 0", "ev evict 0", "ev event 0", "ev evict 5", "ev event 3", "ev event 9", "ev evict 2", "ev evict 9"},
 		{"sr new", "sr add 0 1", "sr add 1 1", "sr add 0 2", "sr create 0 1,1", "sr del 1 1", "sr replace 0 2,3", "sr apply 1 2,3 3"},
+		// weight update racing the Add of its element (verif hook + parking Less): forced schedule
+		{"ss new less", "ss window"},
 		// the SortedSet lock inversion (repaired): Add/Delete of an element against updates of its weight
 		{"stress sortedrace plain 1500 1", "stress sortedrace less 1500 2"},
 	}
